@@ -29,7 +29,7 @@ def install2(reg):
     reg.contract(U + "format_unit", params={"name": "str", "length": "int", "file": "Optional[str]"}, returns="ext:Text",
                  ensures={"separator_colour": "out_arg(1, 0).style.color == color_of(cat(length))",
                           "separator_is_text": "out_method(1) == 'append'"},
-                 props=("C02",))
+                 rt_trace=True, props=("C02",))
     reg.contract(U + "format_measurement", params={"path": "str", "measurement": "Measurement"}, returns="ext:Text",
                  ensures={
                      "n_parts": "out_len() == 12",
@@ -41,7 +41,7 @@ def install2(reg):
                      "emoji": "out_arg(9, 0) == emoji_of(cat(measurement.value))",
                      "emoji_colour": "out_kw(9, 'style').color == color_of(cat(measurement.value))",
                      "name": "out_arg(11, 0) == measurement.unit_name",
-                 }, props=("C02", "C18"))
+                 }, rt_trace=True, props=("C02", "C18"))
 
 
 _install1 = install
